@@ -26,7 +26,11 @@ FIXED = {  # key -> (property, commit subject prefix)
   "C20:plane_cylinder:degenerate-axis-world-x": ("C20", "fix: plane-cylinder uses the cylinder's local x axis"),
   "C03:_actuator_force:dyntype-user-actearly-unassigned-act": ("C03", "fix: actearly with dyntype=user"),
   "C03:fwd_actuation:actuatorgroupdisable-ignored": ("C03", "fix: put_model rejects models that disable actuator groups"),
+  "C03:next_act:dyntype-user-skips-actlimited-clamp": ("C03", "fix: next_act clamps user-dynamics activations"),
+  "C38:compact-nefc0-reads-unwritten-workspace": ("C38", "fix: compact solve zeroes qfrc_constraint"),
+  "C38:compact-vs-full:runtime-tolerance-ignored": ("C38", "fix: compact solve rescales the current opt.tolerance"),
   "C04:contact_material_params:priority-direct-solref": ("C04", "fix: the higher-priority geom's solref"),
+  "C04:plane_box:upper-corners-and-more-than-4-contacts": ("C04", "fix: plane-box constraint contacts are limited"),
   "C04:capsule_capsule:in-gap-contact-dropped": ("C04", "fix: capsule-capsule keeps contacts inside the gap"),
   "C04:broadphase:explicit-pair-margin-ignored": ("C04", "fix: the broadphase filter does not reject explicit contact pairs"),
   "C18:filter:explicit-pair-margin-ignored": ("C18", "fix: the broadphase filter does not reject explicit contact pairs"),
